@@ -171,7 +171,14 @@ impl<'a> Lexer<'a> {
     }
 
     fn lex_simple_string_after_start(&mut self, end: char) -> String {
+        self.lex_simple_string_after_start_hex(end).0
+    }
+
+    // also returns the byte offsets (in the returned string) of the characters that were
+    // written as \xHH escapes, so that bytes literals can turn them into single bytes
+    fn lex_simple_string_after_start_hex(&mut self, end: char) -> (String, Vec<usize>) {
         let mut acc = String::new();
+        let mut hex_at = Vec::new();
         while self.peek() != Some(&end) {
             match self.next() {
                 Some('\\') => match self.next() {
@@ -183,6 +190,7 @@ impl<'a> Lexer<'a> {
                     Some('x') => {
                         if let Some(d1) = self.next().and_then(|c| c.to_digit(16)) {
                             if let Some(d2) = self.next().and_then(|c| c.to_digit(16)) {
+                                hex_at.push(acc.len());
                                 acc.push(char::from_u32(d1 * 16 + d2).unwrap())
                             } else {
                                 self.emit(Token::Invalid(format!(
@@ -272,7 +280,7 @@ impl<'a> Lexer<'a> {
             }
         }
         self.next();
-        acc
+        (acc, hex_at)
     }
 
     fn lex_base_and_emit(&mut self, base: u32) {
@@ -523,10 +531,17 @@ impl<'a> Lexer<'a> {
                             if let Some(delim @ ('\'' | '"')) = self.peek() {
                                 let delim = *delim;
                                 self.next();
-                                // TODO this isn't how it works we need to deal with hex
-                                // escapes differently at least
-                                let s = self.lex_simple_string_after_start(delim);
-                                self.emit(Token::BytesLit(Rc::new(s.into_bytes())))
+                                // \xHH denotes the byte HH; every other character its UTF-8 encoding
+                                let (s, hex_at) = self.lex_simple_string_after_start_hex(delim);
+                                let mut bytes = Vec::with_capacity(s.len());
+                                for (i, c) in s.char_indices() {
+                                    if hex_at.contains(&i) {
+                                        bytes.push(c as u32 as u8);
+                                    } else {
+                                        bytes.extend_from_slice(c.encode_utf8(&mut [0; 4]).as_bytes());
+                                    }
+                                }
+                                self.emit(Token::BytesLit(Rc::new(bytes)))
                             } else if self.peek() == Some(&'[') {
                                 self.next();
                                 self.emit(Token::BLeftBracket);
